@@ -234,6 +234,77 @@ theorem consecutive_of_vitals (sub : List Bytes) : ∀ (cs : List Chunk) (a m : 
         refine .vital a m r _ cs ?_ (ih (a + 1) m hrest (by omega))
         rw [List.getD_eq_getElem?_getD, List.getElem?_eq_getElem ha]; rfl
 
+/-- chunks that are all retransmissions of what the receiver already has are all rejected -/
+theorem receive_all_past (sub : List Bytes) (cs : List Chunk) (a m : Nat) (h : Consecutive sub a cs m) :
+    ∀ (d : Nat) (rr : Bool), a + m ≤ d → d ≤ a + 512 →
+      (receiveEager (d % 1024) rr cs).1 = d % 1024 ∧ vitalPayloads (receiveLazy (d % 1024) cs) = [] := by
+  induction h with
+  | nil a => intro d rr _ _; simp [receiveEager, receiveLazy, vitalPayloads]
+  | nonvital a m data cs _ ih =>
+    intro d rr h1 h2
+    obtain ⟨i1, i2⟩ := ih d rr h1 h2
+    exact ⟨by rw [receiveEager_cons_none rfl]; exact i1,
+      by rw [receiveLazy_cons_none rfl]; simpa [vitalPayloads] using i2⟩
+  | vital a m r data cs hd _ ih =>
+    intro d rr h1 h2
+    have hrej : seqNext (d % 1024) ≠ (a + 1) % 1024 := by rw [seqNext_val]; omega
+    have e1 : (seqUpdate (d % 1024) ((a + 1) % 1024)).2 ≠ .current := fun hh => hrej ((seqUpdate_accept_snd _ _).mp hh)
+    have e2 : (seqUpdate (d % 1024) ((a + 1) % 1024)).1 = d % 1024 := by rw [seqUpdate_accept_fst, if_neg hrej]
+    obtain ⟨i1, i2⟩ := ih d (rr || ((seqUpdate (d % 1024) ((a + 1) % 1024)).2 != .current)) (by omega) (by omega)
+    exact ⟨by rw [receiveEager_cons_some rfl, e2, i1], by rw [receiveLazy_cons_some rfl, if_neg e1, i2]⟩
+
+/-- both cases at once: after the chunks `a … a+m-1` a receiver that had `d ≥ a` chunks (at most 512
+ahead of `a`) has `max d (a+m)`, and was handed `max d (a+m) - d` payloads -/
+theorem receive_consecutive_max (sub : List Bytes) (cs : List Chunk) (a m : Nat) (h : Consecutive sub a cs m)
+    (d : Nat) (rr : Bool) (h1 : a ≤ d) (h2 : d ≤ a + 512) :
+    (receiveEager (d % 1024) rr cs).1 = (max d (a + m)) % 1024 ∧
+    (vitalPayloads (receiveLazy (d % 1024) cs)).length = min (max d (a + m)) (max d sub.length) - d := by
+  by_cases hle : d ≤ a + m
+  · obtain ⟨i1, i2⟩ := receive_from_behind sub cs a m h d rr h1 hle h2
+    refine ⟨by rw [i1, Nat.max_eq_right hle], ?_⟩
+    rw [i2, List.length_take, List.length_drop, Nat.max_eq_right hle]
+    omega
+  · obtain ⟨i1, i2⟩ := receive_all_past sub cs a m h d rr (by omega) h2
+    refine ⟨by rw [i1, Nat.max_eq_left (by omega)], ?_⟩
+    rw [i2, Nat.max_eq_left (by omega)]
+    simp; omega
+
+/-- processing datagrams one after the other (the receiver's ack and resend-request flag thread
+through) is processing the concatenation of their chunk lists -/
+def recvAll : Nat → Bool → List (List Chunk) → (Nat × Bool) × List Event
+  | ack, rr, [] => ((ack, rr), [])
+  | ack, rr, p :: ps =>
+    let r := recvAll (receiveEager ack rr p).1 (receiveEager ack rr p).2 ps
+    (r.1, receiveLazy ack p ++ r.2)
+
+theorem recvAll_flatten (ps : List (List Chunk)) : ∀ (ack : Nat) (rr : Bool),
+    recvAll ack rr ps = (receiveEager ack rr ps.flatten, receiveLazy ack ps.flatten) := by
+  induction ps with
+  | nil => intro ack rr; rfl
+  | cons p ps ih =>
+    intro ack rr
+    simp only [recvAll, List.flatten_cons, ih, receiveEager_append, receiveLazy_append p ps.flatten ack rr]
+
+/-- the unacknowledged chunks, oldest first, as `(sequence, payload)`: chunks `n-|q| … n-1` -/
+theorem queue_vitals (sub : List Bytes) (q : List ResendChunk)
+    (hq : ∀ i c, q[i]? = some c → i < sub.length ∧ sub[sub.length - 1 - i]? = some c.data ∧ c.seq = (sub.length - i) % 1024) :
+    q.reverse.map (fun c => (c.seq, c.data)) =
+      (List.range' (sub.length - q.length) q.length).map (fun k => ((k + 1) % 1024, sub.getD k [])) := by
+  apply List.ext_getElem?
+  intro j
+  by_cases hj : j < q.length
+  · have hidx : q.length - 1 - j < q.length := by omega
+    have hc : q[q.length - 1 - j]? = some q[q.length - 1 - j] := List.getElem?_eq_getElem hidx
+    obtain ⟨h1, h2, h3⟩ := hq _ _ hc
+    have hl : q.length ≤ sub.length := by
+      have := (hq (q.length - 1) _ (List.getElem?_eq_getElem (by omega))).1; omega
+    rw [List.getElem?_map, List.getElem?_reverse hj, hc, List.getElem?_map, List.getElem?_range' hj]
+    simp only [Option.map_some, Nat.one_mul]
+    have e1 : sub.length - q.length + j + 1 = sub.length - (q.length - 1 - j) := by omega
+    have e2 : sub.length - q.length + j = sub.length - 1 - (q.length - 1 - j) := by omega
+    rw [h3, e1, e2, List.getD_eq_getElem?_getD, h2]; rfl
+  · rw [List.getElem?_eq_none (by simp; omega), List.getElem?_eq_none (by simp; omega)]
+
 /-! ## the returning ack -/
 
 /-- an ack naming the newest unacknowledged chunk empties the resend queue -/
